@@ -620,6 +620,59 @@ def D3(m, R):
                               '(red hidden under blue over the same range: removing red leaves the rendering as it is, and the returned object still reports red)'
                    % (short(eqret.test), name), construct=cons)
             continue
+        if expr is None and name == 'remove_formatting' and body:
+            # a "nothing was narrowed down, so everything goes" shortcut: `return self.clear_formatting()` -- right only for settings=None, start None / 0, end=None
+            pre_ = {}
+            b0 = body[0]
+            k0 = 0
+            if isinstance(b0, ast.Assign) and len(b0.targets) == 1 and isinstance(b0.targets[0], ast.Name) and isinstance(b0.value, (ast.BoolOp, ast.UnaryOp, ast.Compare)) \
+                    and len(body) > 1:
+                pre_[b0.targets[0].id] = b0.value
+                k0 = 1
+            g0 = body[k0] if k0 < len(body) else None
+            if isinstance(g0, ast.If) and not g0.orelse and len(g0.body) == 1 and isinstance(g0.body[0], ast.Return) and isinstance(g0.body[0].value, ast.Call) and \
+                    call_name(g0.body[0].value) == 'clear_formatting':
+                import itertools
+                from ..finite import eval_guard as _eg
+                ps_ = sf.own_params()[:3]
+                test_ = subst(g0.test, pre_)
+                samples = {0: [None, [], 'x'], 1: [None, 0, 2], 2: [None, 0, 2]}
+                witness, unknown = None, False
+                for combo in itertools.product(*[samples[i_] for i_ in range(len(ps_))]):
+                    env_ = dict(zip(ps_, combo))
+
+                    def val_(a_, env_=env_):
+                        if isinstance(a_, ast.Name) and a_.id in env_:
+                            return bool(env_[a_.id])
+                        if isinstance(a_, ast.Compare) and len(a_.ops) == 1 and isinstance(a_.left, ast.Name) and a_.left.id in env_:
+                            c_ = const_val(a_.comparators[0], _MISSING)
+                            if c_ is _MISSING:
+                                return None
+                            x_, op_ = env_[a_.left.id], a_.ops[0]
+                            if isinstance(op_, ast.Is):
+                                return x_ is c_
+                            if isinstance(op_, ast.IsNot):
+                                return x_ is not c_
+                            if isinstance(op_, (ast.Eq, ast.NotEq)):
+                                return (x_ == c_) if isinstance(op_, ast.Eq) else (x_ != c_)
+                        return None
+                    g_ = _eg(test_, val_)
+                    if g_ is None:
+                        unknown = True
+                        continue
+                    everything = env_.get(ps_[0]) is None and env_.get(ps_[1]) in (None, 0) and (len(ps_) < 3 or env_.get(ps_[2]) is None)
+                    if g_ and not everything and witness is None:
+                        witness = env_
+                if witness is not None:
+                    R.viol(sf, g0, 'returns clear_formatting() when %s, which also holds for %s: an end of 0 is an empty range and an empty selection names nothing -- the twin '
+                                   'removes nothing there' % (short(test_), ', '.join('%s=%r' % kv for kv in witness.items())), construct=cons)
+                    continue
+                if unknown:
+                    R.undecided(sf, g0, 'guard of the clear_formatting() shortcut not evaluated: %s' % short(test_), construct=cons)
+                    continue
+                body = body[k0 + 1:]
+                if len(body) == 1 and isinstance(body[0], ast.Return) and body[0].value is not None:
+                    expr, ret = body[0].value, body[0]
         if expr is None and name == 'clip' and body and isinstance(body[0], ast.If) and not body[0].orelse and len(body[0].body) == 1 and \
                 isinstance(body[0].body[0], ast.Return) and is_name(body[0].body[0].value, selfn):
             # an early `return self` of clip(start, end): right only for bounds that select the whole string -- start None / 0 and end None
@@ -1341,6 +1394,15 @@ def D5(m, R):
             R.check(tt == {True: False, False: True} and not esc.orelse, f, esc, 're.escape applied iff not regex',
                     're.escape applied for regex in %s' % sorted(k for k, v in tt.items() if v), construct=cons)
             spec_searched = spec
+        # the matches collected in a list first and cut to `count` by a slice: a filter on the matches changes which ones count
+        if len(loops) != 1:
+            comps = [n for n in f.walk() if isinstance(n, (ast.ListComp, ast.GeneratorExp)) and len(n.generators) == 1 and call_name(n.generators[0].iter) == 'finditer']
+            if len(comps) == 1 and comps[0].generators[0].ifs:
+                g0 = comps[0].generators[0]
+                R.viol(f, comps[0], 'the matches of re.finditer are filtered by `%s` before the first count of them are taken: not every one of the first count matches '
+                                    'is formatted, and the filtered ones do not use up count (an empty match of "x*" is a match)' % short(g0.ifs[0]),
+                       construct=name + ' match filter')
+                continue
         # (2) finditer
         cons = name + ' finditer'
         if len(loops) != 1:
